@@ -263,12 +263,13 @@ var misPairs = [][4]int{
 	{3, 1, 2, 0}, // time violation: equal times at different heights
 	{5, 0, 4, 0}, // two honest headers: not misbehaviour
 	{7, 0, 7, 1},
+	{3, 0, 3, 2}, // fork differing in the next validators hash only
 }
 
 // IsMisbehaviour is the reference notion of misbehaviour for two (valid) headers.
 func (s *Scenario) IsMisbehaviour(p [4]int) bool {
 	if p[0] == p[2] {
-		return p[1] != p[3] // every alternative block differs from the canonical one in time or app hash
+		return p[1] != p[3] // every alternative block differs from the canonical one in time, app hash or next validators (all in the block hash)
 	}
 	return s.VC.Block(p[0], p[1]).TimeNs <= s.VC.Block(p[2], p[3]).TimeNs
 }
@@ -489,7 +490,7 @@ func Describe(c interface {
 	Assume(string)
 }) {
 	c.Set("alphabet", "upd(i,v,ti) = MsgUpdateClient with the signed header of block variant v at height index i trusting stored height index ti (any order: gap filling, past heights, duplicates, conflicting variants) | mis(pair,ti) = MsgUpdateClient carrying ibctm.Misbehaviour (forks, time violations, one non-misbehaviour pair) | adv(k) = commit chain A and advance its clock by 5 s / trusting/2 / trusting | rec(s) = MsgRecoverClient by the gov authority with substitute s | use-* = ConnOpenInit, ClientKeeper.VerifyMembership / VerifyNonMembership with real proofs, ChanOpenInit, ChanCloseInit, SendPacket (v1), MsgRecvPacket with a real commitment proof, MsgSendPacket (v2)")
-	c.Set("block_tree", "canonical blocks 10 s apart (block 1 is exactly trusting/2 old at the root); alternatives: 2b,7b same time other app hash; 3b time equal to 2a; 4b later than 5a; 5b earlier than 4a; 6b same app hash, time +1 s; client: trusting 100 s, unbonding 400 s, drift 10 s; substitutes: (N,a) trusting 150 s, (5,b) trusting 100 s")
+	c.Set("block_tree", "canonical blocks 10 s apart (block 1 is exactly trusting/2 old at the root); alternatives: 2b,7b same time other app hash; 3b time equal to 2a; 3c same time and app hash as 3a but another next-validators hash; 4b later than 5a; 5b earlier than 4a; 6b same app hash, time +1 s; client: trusting 100 s, unbonding 400 s, drift 10 s; substitutes: (N,a) trusting 150 s, (5,b) trusting 100 s")
 	c.Assume("the counterparty is virtual: its block tree, validator signatures (1 validator, fixed key), committed IAVL stores and ICS-23 proofs are produced by the harness; every header is properly signed by the one validator set (header acceptance as such is C24's subject)")
 	c.Assume("one message per transaction, ante handlers not on the path; chain A's clock moves only through adv")
 }
